@@ -562,3 +562,20 @@ func IsTimeout(err error) bool {
 }
 
 func (c *Conn) String() string { return fmt.Sprintf("wire(%s)", c.Name) }
+
+// WriteOwned is how an application that recycles its buffers writes: w.Write
+// gets a private copy of p (with spare capacity behind it), and as soon as
+// Write has returned the whole backing array is overwritten. A caller owns its
+// buffer again once Write returns (io.Writer: "implementations must not retain
+// p"), so whatever the code under test still has to send must not live in it;
+// nothing is demanded about what Write did to the buffer meanwhile.
+func WriteOwned(w io.Writer, p []byte) (int, error) {
+	q := make([]byte, len(p), len(p)+96)
+	copy(q, p)
+	n, err := w.Write(q)
+	q = q[:cap(q)]
+	for i := range q {
+		q[i] = 0xEE
+	}
+	return n, err
+}
